@@ -97,7 +97,7 @@ func checkC01(c *C01Case) *Violation {
 	}
 	nontrivial := false
 	for _, opt := range []bool{false, true} {
-		res := CompileMaybeLM(src, Opts{Optimize: opt, Auto: c.Auto})
+		res := CompileMaybeLM(src, Opts{Optimize: opt, Auto: c.Auto, Switches: c.Switches})
 		if !res.OK() {
 			if res.Panic != nil || res.Budget {
 				return viol("crash", "opt=%v %s\n--- source\n%s", opt, res.Describe(), src)
@@ -107,12 +107,20 @@ func checkC01(c *C01Case) *Violation {
 			st.Note("last_rejection", clip(res.Err.Error()+"\n"+src, 600))
 			return nil
 		}
-		v, distinct := diffExec(c.File, c.Auto, res.Out, worlds, fmt.Sprintf("opt=%v", opt))
+		model := c.File
+		if c.Switches != nil {
+			r, ok := Resolve(model, c.Switches)
+			if !ok {
+				panic("harness: C01 poryswitches always have a fallback")
+			}
+			model = r
+		}
+		v, distinct := diffExec(model, c.Auto, res.Out, worlds, fmt.Sprintf("opt=%v", opt))
 		if v != nil {
 			v.Detail += "\n--- source\n" + src
 			return v
 		}
-		_, blocks := EntryBlocks(c.File)
+		_, blocks := EntryBlocks(model)
 		for name, n := range distinct {
 			yes, d := hasLoopOrSwitch(blocks[name])
 			if (yes || d >= 2) && n >= 2 {
@@ -134,7 +142,19 @@ func genC01(t *rapid.T) *C01Case {
 		cfg.Auto = genAutoCfg(t)
 		cfg.AutoP = 3
 	}
+	withPS := rapid.IntRange(0, 5).Draw(t, "withps") == 0
+	if withPS {
+		// control flow inside statement poryswitch cases (selected, fallback, explicitly empty, unselected;
+		// colon and brace form): the program behaves like the one with the selected cases written out
+		cfg.PS = 6
+		cfg.PSNoDirectContinue = true
+		cfg.PSNestedFallback = true
+		cfg.PSAlwaysFallback = true
+	}
 	c := &C01Case{File: GenScripts(t, cfg, n), Auto: cfg.Auto}
+	if withPS {
+		c.Switches = map[string]string{"V": rapid.SampledFrom([]string{"A", "B", "1", "zz"}).Draw(t, "swV"), "W": rapid.SampledFrom([]string{"A", "B", "q"}).Draw(t, "swW")}
+	}
 	nw := pick(8, 24)
 	base := rapid.Uint64Range(1, 1<<40).Draw(t, "world")
 	for i := 0; i < nw; i++ {
@@ -151,7 +171,7 @@ func TestC01_Regress(t *testing.T) { runRegress(t, "C01") }
 
 func TestC01_Diff(t *testing.T) {
 	st := stat("C01")
-	st.SetRule("files of 1-3 scripts drawn from the control-flow grammar (if/elif/else, while, condition-less while, do-while, break, continue, switch, end/return, labels, gotos incl. cross-script and hand-written goto_if_set / goto_if_unset commands; in one file in five a third of the condition leaves and switch operands are AutoVar commands), depth<=4 (thorough 6), compiled with optimize off and on and executed from every script entry under 8 (thorough 24) hashed worlds against the reference interpreter; non-trivial = an entry whose script has a loop, a switch or an if nested >= 2 deep AND whose worlds produced >= 2 different outcomes; distinct by source text")
+	st.SetRule("files of 1-3 scripts drawn from the control-flow grammar (if/elif/else, while, condition-less while, do-while, break, continue, switch, end/return, labels, gotos incl. cross-script and hand-written goto_if_set / goto_if_unset commands; in one file in six the statements sit in statement poryswitch cases; in one file in five a third of the condition leaves and switch operands are AutoVar commands), depth<=4 (thorough 6), compiled with optimize off and on and executed from every script entry under 8 (thorough 24) hashed worlds against the reference interpreter; non-trivial = an entry whose script has a loop, a switch or an if nested >= 2 deep AND whose worlds produced >= 2 different outcomes; distinct by source text")
 	st.Assume("flag/var/trainer tests are side-effect free; world state is a function of the number of commands executed", "call and hand-written goto_if_* are opaque commands", "60-command horizon per run")
 	runRapid(t, "C01", "TestC01_Diff", genC01, checkC01, c01Src)
 }
